@@ -217,6 +217,11 @@ class Vec:
         nm = _np_call(node, RED)
         if nm and len(node.args) == 1:
             return self.reduce(RED[nm], node, at)
+        nm = _np_call(node, ("maximum", "minimum", "fmax", "fmin"))
+        if nm and len(node.args) == 2 and not node.keywords:
+            a, b = self.expr(node.args[0], at), self.expr(node.args[1], at)
+            return Val("(R%s %s %s)" % ("max" if "max" in nm else "min", a.term, b.term),
+                       broadcast(a.dims, b.dims, ast.unparse(node)[:60]))
         if isinstance(f, ast.Name) and f.id in ("max", "min") and len(node.args) == 2 \
                 and not node.keywords:
             a, b = self.expr(node.args[0], at), self.expr(node.args[1], at)
@@ -500,6 +505,32 @@ def gen_packing(fns, spans):
     return out, v, fn
 
 
+def gen_clip(fn):
+    """the in-place clipping of widths and offsets at the top of
+    _intermediatePressureResults (attribute stores on wallParams, elementwise)"""
+    out = []
+    stores = {}
+    for st in fn.body:
+        if isinstance(st, ast.Assign) and len(st.targets) == 1 and \
+                ast.unparse(st.targets[0]) in ("wallParams.widths", "wallParams.offsets"):
+            k = ast.unparse(st.targets[0]).split(".")[1]
+            if k in stores:
+                raise TranslateError("wallParams.%s stored twice" % k)
+            stores[k] = st
+    if set(stores) != {"widths", "offsets"}:
+        raise TranslateError("_intermediatePressureResults: clipping of wallParams.widths/"
+                             "offsets not found")
+    attrs = {k: v for k, v in BCFG.items()}
+    for k, arg in (("widths", "w"), ("offsets", "d")):
+        st = stores[k]
+        v = Vec(fn, {"wallParams." + k: (arg, ("F",))}, attrs=attrs)
+        val = v.expr(st.value, st.lineno)
+        if val.dims != ("F",):
+            raise TranslateError("clipping of %s is not elementwise over the fields" % k)
+        out.append("Definition clip_%s (b : bcfg) (%s : R) : R :=\n  %s." % (k, arg, val.term))
+    return out
+
+
 def gen_dVdz(v, fn, spans, axis_consts):
     """dVdz = sum over fields of dVfull * dPhidz, and the def-use facts around it"""
     out = []
@@ -704,6 +735,8 @@ def generate(eom_src, fields_src):
         gen_updateGrid(eom["_updateGrid"], spans)
     pk, v, fn = gen_packing(eom, spans)
     out += ["(** EOM._toWallParams and what scipy.optimize.minimize receives *)"] + pk
+    out += ["(** EOM._intermediatePressureResults: clipping of the incoming wall parameters "
+            "(elementwise, every field including the pinned one) *)"] + gen_clip(fn)
     out += ["(** EOM._intermediatePressureResults: dV/dz and the Boltzmann background *)"] + \
         gen_dVdz(v, fn, spans, consts)
     return "\n".join(out) + "\n", spans
